@@ -530,8 +530,10 @@ func (w *renderer) quote(s string) {
 		case c < 0x20:
 			u()
 			w.res.SetAdd("escape", `\u00XX(control)`)
-		case c >= 0x7f && c <= 0x9f, c == 0xfffe, c == 0xffff, c == 0x2028, c == 0x2029:
-			// not accepted literally by YAML, or read as a line break and folded
+		case c >= 0x7f && c <= 0x9f, c == 0xfffe, c == 0xffff, c == 0x2028, c == 0x2029, c == 0xfeff:
+			// not printable for YAML (rejected, or yaml.v2's reader trips over a
+			// literal U+FEFF near a 512-byte chunk boundary), or read as a line
+			// break and folded
 			u()
 			w.res.SetAdd("escape", `\uXXXX(yaml-nonprintable)`)
 		case c > 0xffff:
